@@ -520,3 +520,61 @@ Example c16_params_nodup_satisfiable :
   st_freed s = false /\
   exists v, get_new s 0 = Some v /\ vn_params v = [0; 4; 5] /\ NoDup (vn_params v) /\ length (vn_meas v) = 1.
 Proof. exact nodup_example. Qed.
+
+(* ------------------------------------------------------------------ session 5b: zero frequency points, vector values everywhere *)
+(* vnacal_new_alloc accepts frequencies = 0 (as coded): vnacal_new_set_frequency_vector then reads no
+   element and succeeds for every start value, the range tests of add_* are guarded by
+   vn_frequencies_valid && vn_frequencies > 0 (vn_ranged; TableSpec.in_range), vnacal_new_solve has
+   nothing to solve and succeeds, a solved unknown is left without a value, the calibration has no
+   fmin / fmax.  All theorems above are about this model. *)
+Theorem c16_zero_points_setfreq_accepted : forall s id v f0,
+  st_freed s = false -> get_new s id = Some v -> vn_nf v = 0 ->
+  step s (OSetFreq id f0)
+  = (with_new s (st_pt s) id (Some (mkVN (vn_type v) (vn_dim v) (vn_nf v) true f0 (vn_params v) (vn_unknowns v)
+                                         (vn_meas v) (vn_cal v))), ok_int 0).
+Proof. exact zero_points_setfreq. Qed.
+Print Assumptions c16_zero_points_setfreq_accepted.
+
+Theorem c16_zero_points_no_range_requirement : forall t v n, vn_nf v = 0 -> in_range t v n.
+Proof. exact zero_points_in_range. Qed.
+Print Assumptions c16_zero_points_no_range_requirement.
+
+Theorem c16_zero_points_solve_succeeds : forall s id v b,
+  st_freed s = false -> get_new s id = Some v -> vn_nf v = 0 -> vn_fvalid v = true ->
+  snd (step s (OSolve id b)) = ok_int 0.
+Proof. exact zero_points_solve. Qed.
+Print Assumptions c16_zero_points_solve_succeeds.
+
+Example c16_zero_points_satisfiable :
+  map o_ret (snd (run st_initial zero_script))
+  = [RInt 3; RPtr true; RInt 0; RInt 0; RInt 0; RInt 0; RCal 1 0 1 1 0 (-5) (-6)] /\
+  exists v, get_new (run_state (firstn 2 zero_script)) 0 = Some v /\ vn_nf v = 0 /\ vn_fvalid v = false.
+Proof. exact zero_example. Qed.
+
+(* c16_values_vector: the value of a vector parameter at EVERY frequency of its extrapolation band.
+   get_value_q (CalTab/CalTabVectorModel.v) = _vnacal_rfi of property C10 (Interp/RfiModel.v, imported)
+   over the supplied points with order min(n, VNACAL_MAX_M), EPS and the cut-off as regenerated from the
+   C text.  For the handle z a successful make_vector returns and every f inside the band:
+   the value v exists (the rfi model neither faults nor fails an assert), is the same for every cached
+   segment (hint), equals the supplied value when f is a supplied frequency (where the integer model
+   answers RValue), and is what the integer model's RInterp stands for between supplied frequencies
+   (the tie compares exactly this number with the library's double). *)
+Require Import LV.Base.QcI LV.CalTab.CalTabVectorModel LV.CalTab.CalTabVector.
+Theorem c16_values_vector : forall s fs gs fl s' z f,
+  Inv s -> st_freed s = false -> step s (OMakeVector fs gs fl) = (s', ok_int z) ->
+  out_of_band fs f = false ->
+  exists v, get_value_q (st_pt s') z f = Some v /\
+            (forall hint, interp_value_hint hint fs (firstn (length fs) gs) f = Some v) /\
+            (forall i, index_of f fs = Some i ->
+               exists g, nth_error gs i = Some g /\ v = qval g /\ get_value (st_pt s') z f = mkOut (RValue g) ENone 0) /\
+            (index_of f fs = None -> get_value (st_pt s') z f = mkOut RInterp ENone 0).
+Proof. exact values_vector_l. Qed.
+Print Assumptions c16_values_vector.
+
+Example c16_values_vector_satisfiable :
+  exists s', step st_initial (OMakeVector [1; 3; 6]%Z [(64, 0); (32, 0); (16, 64)]%Z 0) = (s', ok_int 3) /\
+             out_of_band [1; 3; 6] 2 = false /\ index_of 2 [1; 3; 6] = None /\
+             get_value (st_pt s') 3 2 = mkOut RInterp ENone 0 /\
+             (exists v, get_value_q (st_pt s') 3 2 = Some v) /\
+             get_value_q (st_pt s') 3 3 = Some (qval (32, 0)).
+Proof. exact values_vector_example. Qed.
